@@ -202,18 +202,22 @@ func Graph(rng *rand.Rand, name string, o GraphOpts) *spec.Spec {
 			np := 1 + rng.Intn(2)
 			pn := o.Lens[rng.Intn(len(o.Lens))]
 			if o.ParamComb && np == 2 && rng.Intn(2) == 0 {
-				la, lb := 1+rng.Intn(3), 1+rng.Intn(3)
-				pc := &spec.Proc{Name: pname + "pc", Kind: spec.KParamComb, Ports: []string{"u", "v"}}
-				pc.Feeds = nil
+				cports := []string{"u", "v"}
+				if rng.Intn(2) == 0 {
+					cports = []string{"u", "v", "w"}
+				}
+				pc := &spec.Proc{Name: pname + "pc", Kind: spec.KParamComb, Ports: cports}
 				s.Procs = append(s.Procs, pc)
-				s.Procs = append(s.Procs, &spec.Proc{Name: pname + "s1", Kind: spec.KParamSource, Values: uniqVals(la)},
-					&spec.Proc{Name: pname + "s2", Kind: spec.KParamSource, Values: uniqVals(lb)})
-				s.Conns = append(s.Conns, &spec.Conn{From: pname + "s1.out", To: pc.Name + ".u", Param: true},
-					&spec.Conn{From: pname + "s2.out", To: pc.Name + ".v", Param: true},
-					&spec.Conn{From: pc.Name + ".u", To: pname + ".u", Param: true},
-					&spec.Conn{From: pc.Name + ".v", To: pname + ".v", Param: true})
-				params = []string{"u", "v"}
-				n = la * lb
+				n = 1
+				for ci, cp := range cports {
+					l := 1 + rng.Intn(3)
+					n *= l
+					sn := fmt.Sprintf("%ss%d", pname, ci+1)
+					s.Procs = append(s.Procs, &spec.Proc{Name: sn, Kind: spec.KParamSource, Values: uniqVals(l)})
+					s.Conns = append(s.Conns, &spec.Conn{From: sn + ".out", To: pc.Name + "." + cp, Param: true},
+						&spec.Conn{From: pc.Name + "." + cp, To: pname + "." + cp, Param: true})
+				}
+				params = cports
 				amb = true
 			} else {
 				for j := 0; j < np; j++ {
